@@ -87,7 +87,7 @@ LEVEL_NOTE = ('Trusts mpmath (self-tested on textbook values and on argument red
               'generated C present in /repo (no Cython in the sandbox).  "A few ulp" is read per unit of conditioning for powers '
               'and as 8 ulp for clog (see module docstring).')
 CASES = {'quick': 60000, 'thorough': 6000000}
-SHARDS = {'quick': 8, 'thorough': 16}
+SHARDS = {'quick': 12, 'thorough': 16}
 TIMEOUT = {'quick': 900, 'thorough': 6 * 3600}
 
 TOL = 4.0
@@ -153,67 +153,144 @@ def selftest():
 
 # ---------------------------------------------------------------------------------------------------------
 # generators
+#
+# Hypothesis supplies the entropy (four 64-bit integers per case); `_decode` is a pure function of them that
+# builds the case through a splitmix64 stream.  (A tree of nested one_of/builds strategies produced the same
+# cases at 2.5 ms each, 5x the cost of the oracle; the shrinker of this framework works on the case dict, so
+# nothing is lost.)
 # ---------------------------------------------------------------------------------------------------------
 
-_MANT = st.one_of(st.integers(0, 2 ** 52 - 1), st.integers(0, 2 ** 52 - 1), st.integers(0, 2 ** 52 - 1),
-                  st.sampled_from([0, 1, 2 ** 52 - 1, 2 ** 51, 2 ** 51 + 1, 2 ** 26]))
-_SIGN = st.sampled_from([1.0, -1.0])
+_M64 = 2 ** 64 - 1
 
 
-def _normal(emin, emax):
-    return st.builds(lambda s, e, m: s * math.ldexp(1.0 + m / 2.0 ** 52, e), _SIGN, st.integers(emin, emax), _MANT)
+class _R:
+    """splitmix64 stream seeded from the Hypothesis-drawn words"""
 
+    def __init__(self, words):
+        s = 0x9E3779B97F4A7C15
+        for w in words:
+            s = ((s ^ (int(w) & _M64)) * 0xBF58476D1CE4E5B9 + 0x94D049BB133111EB) & _M64
+        self.s = s
 
-_SUB = st.builds(lambda s, m, sh: s * math.ldexp(max(1, m >> sh), -1074), _SIGN, st.integers(1, 2 ** 52 - 1),
-                 st.integers(0, 51))
-_MID = _normal(-40, 40)
-_WIDE = _normal(-1022, 1023)
-_BIG = _normal(1019, 1023)
-_SMALL = _normal(-1022, -1016)
-_ZERO = st.sampled_from([0.0, -0.0])
-_ANY = st.one_of(_MID, _MID, _WIDE, _WIDE, _SUB, _BIG, _SMALL, _ZERO)
-_NONZERO = st.one_of(_MID, _MID, _WIDE, _WIDE, _SUB, _BIG, _SMALL)
+    def u64(self):
+        self.s = (self.s + 0x9E3779B97F4A7C15) & _M64
+        z = self.s
+        z = ((z ^ (z >> 30)) * 0xBF58476D1CE4E5B9) & _M64
+        z = ((z ^ (z >> 27)) * 0x94D049BB133111EB) & _M64
+        return z ^ (z >> 31)
 
+    def below(self, n):
+        return self.u64() % n
 
-def _unif(lo, hi):
-    return st.integers(0, 2 ** 53 - 1).map(lambda k: lo + (hi - lo) * (k / 2.0 ** 53))
+    def rint(self, lo, hi):
+        return lo + self.u64() % (hi - lo + 1)
 
+    def unit(self):
+        return (self.u64() >> 11) / 2.0 ** 53
 
-def _tied(base):
-    """(re, im) with |im| = |re| 2^-k (or swapped)."""
-    return st.builds(lambda a, k, s, sw, m: ((a, s * a * 2.0 ** -k * (1.0 + m / 2.0 ** 52))[::-1] if sw
-                                             else (a, s * a * 2.0 ** -k * (1.0 + m / 2.0 ** 52))),
-                     base, st.integers(0, 80), _SIGN, st.booleans(), _MANT)
+    def unif(self, lo, hi):
+        return lo + (hi - lo) * self.unit()
 
+    def pick(self, seq):
+        return seq[self.u64() % len(seq)]
 
-def _circle():
-    rad = st.one_of(st.just(1.0), _unif(0.70, 1.75), _unif(0.70, 0.72), _unif(1.72, 1.74),
-                    st.builds(lambda s, k: 1.0 + s * 2.0 ** -k, _SIGN, st.integers(1, 52)))
-    ang = st.one_of(_unif(-math.pi, math.pi), _unif(-0.5, 0.5),
-                    st.builds(lambda s, k: s * 2.0 ** -k, _SIGN, st.integers(1, 300)))
-    return st.builds(lambda r, t, sw: (r * math.cos(t), r * math.sin(t))[::-1] if sw else (r * math.cos(t), r * math.sin(t)),
-                     rad, ang, st.booleans())
+    def sign(self):
+        return 1.0 if self.u64() & 1 else -1.0
 
+    def mant(self):
+        k = self.below(8)
+        if k == 0:
+            return self.pick([0, 1, 2 ** 52 - 1, 2 ** 51, 2 ** 51 + 1, 2 ** 26])
+        return self.u64() >> 12
 
-_PAIR = st.one_of(st.tuples(_MID, _MID), st.tuples(_WIDE, _WIDE), st.tuples(_ANY, _ANY), st.tuples(_ANY, _ANY),
-                  st.tuples(_SUB, _SUB), st.tuples(_BIG, _ANY), st.tuples(_ANY, _BIG), st.tuples(_BIG, _BIG),
-                  st.tuples(_SMALL, _SUB), st.tuples(_SUB, _SMALL), _tied(_WIDE), _tied(_MID), _circle())
-_SPECIAL_PART = st.sampled_from([math.inf, -math.inf, math.nan, 0.0, -0.0])
-_SPECIAL_PAIR = st.one_of(st.tuples(_SPECIAL_PART, _ANY), st.tuples(_ANY, _SPECIAL_PART),
-                          st.tuples(_SPECIAL_PART, _SPECIAL_PART))
+    # ---- doubles by exponent class
+    def normal(self, emin, emax):
+        return self.sign() * math.ldexp(1.0 + self.mant() / 2.0 ** 52, self.rint(emin, emax))
 
+    def sub(self):
+        return self.sign() * math.ldexp(max(1, (self.u64() >> 12) >> self.below(52)), -1074)
 
-def _zcase(fn, pair):
-    return pair.map(lambda p: {'fn': fn, 're': H(p[0]), 'im': H(p[1])})
+    def mid(self):
+        return self.normal(-40, 40)
 
+    def wide(self):
+        return self.normal(-1022, 1023)
 
-def _cexp_strategy():
-    x = st.one_of(_unif(-745.2, 709.78), _unif(-745.2, 709.78), _unif(-40.0, 40.0), _normal(-60, 5), _SUB, _ZERO,
-                  _unif(709.0, 709.7827), _unif(LOG_DBL_MAX, LOG_DBL_MAX + 0.34), _unif(-745.2, -700.0))
-    kpi = st.builds(lambda k, n: _nudge(k * (math.pi / 4.0), n), st.one_of(st.integers(-40, 40), st.integers(-10 ** 15, 10 ** 15)),
-                    st.integers(-3, 3))
-    y = st.one_of(_MID, _MID, _WIDE, _unif(-7.0, 7.0), kpi, kpi, _SUB, _ZERO, _BIG)
-    return st.tuples(x, y).map(lambda p: {'fn': 'cexp', 're': H(p[0]), 'im': H(p[1])})
+    def big(self):
+        return self.normal(1019, 1023)
+
+    def small(self):
+        return self.normal(-1022, -1016)
+
+    def zero(self):
+        return self.pick([0.0, -0.0])
+
+    def any(self, zero=True):
+        k = self.below(8 if zero else 7)
+        return (self.mid, self.mid, self.wide, self.wide, self.sub, self.big, self.small, self.zero)[k]()
+
+    # ---- complex arguments
+    def tied(self, base):
+        a = base()
+        b = self.sign() * a * 2.0 ** -self.rint(0, 80) * (1.0 + self.mant() / 2.0 ** 52)
+        return (b, a) if self.below(2) else (a, b)
+
+    def circle(self):
+        k = self.below(5)
+        if k == 0:
+            r = 1.0
+        elif k == 1:
+            r = self.unif(0.70, 1.75)
+        elif k == 2:
+            r = self.unif(0.70, 0.72)
+        elif k == 3:
+            r = self.unif(1.72, 1.76)
+        else:
+            r = 1.0 + self.sign() * 2.0 ** -self.rint(1, 52)
+        k = self.below(3)
+        if k == 0:
+            t = self.unif(-math.pi, math.pi)
+        elif k == 1:
+            t = self.unif(-0.5, 0.5)
+        else:
+            t = self.sign() * 2.0 ** -self.rint(1, 300)
+        p = (r * math.cos(t), r * math.sin(t))
+        return p[::-1] if self.below(2) else p
+
+    def pair(self):
+        k = self.below(13)
+        if k == 0:
+            return self.mid(), self.mid()
+        if k == 1:
+            return self.wide(), self.wide()
+        if k in (2, 3):
+            return self.any(), self.any()
+        if k == 4:
+            return self.sub(), self.sub()
+        if k == 5:
+            return self.big(), self.any()
+        if k == 6:
+            return self.any(), self.big()
+        if k == 7:
+            return self.big(), self.big()
+        if k == 8:
+            return self.small(), self.sub()
+        if k == 9:
+            return self.sub(), self.small()
+        if k == 10:
+            return self.tied(self.wide)
+        if k == 11:
+            return self.tied(self.mid)
+        return self.circle()
+
+    def special_pair(self):
+        sp = [math.inf, -math.inf, math.nan, 0.0, -0.0]
+        k = self.below(3)
+        if k == 0:
+            return self.pick(sp), self.any()
+        if k == 1:
+            return self.any(), self.pick(sp)
+        return self.pick(sp), self.pick(sp)
 
 
 def _nudge(v, n):
@@ -222,65 +299,156 @@ def _nudge(v, n):
     return v
 
 
-_LOGMAG = st.one_of(_unif(-745.0, 709.7), _unif(-745.0, 709.7), _unif(-30.0, 30.0), _unif(-745.0, -700.0),
-                    _unif(700.0, 709.7), _unif(-1.0, 1.0))
-_ANGLE = st.one_of(_unif(-math.pi, math.pi), _unif(-math.pi, math.pi),
-                   st.sampled_from(['+x', '-x', '+y', '-y', '-x-0', '+x-0']),
-                   st.builds(lambda s, k: s * 2.0 ** -k, _SIGN, st.integers(1, 60)))
-_INT_B = st.one_of(st.integers(-200, 200), st.integers(-200, 200), st.integers(-12, 12),
-                   st.sampled_from([1, -1, 2, -2, 3, -3, 4, -4, 99, -99, 100, -100, 101, -101, 127, 128, -128, 200, -200]))
-_REAL_B = st.one_of(_unif(-200.0, 200.0), st.integers(-400, 400).map(lambda k: k / 2.0 + 0.0),
-                    st.builds(lambda s, e, m: s * 10.0 ** e * (1.0 + m / 2.0 ** 52), _SIGN, _unif(-6.0, 2.0), _MANT),
-                    _unif(-3.0, 3.0))
+def _gen_cexp(r):
+    if r.below(20) == 0:
+        # band where exp(x) already overflows but both components are still representable: d = x - log(DBL_MAX)
+        # < ln(sqrt 2) and the angle inside the window around an odd multiple of pi/4 with max(|cos|,|sin|) < e^-d
+        d = r.unif(1e-9, 0.3465)
+        y = (2 * r.rint(-8, 8) + 1) * (math.pi / 4.0) + r.unif(-0.98, 0.98) * (math.pi / 4.0 - math.acos(min(1.0, math.exp(-d))))
+        return LOG_DBL_MAX + d, y
+    k = r.below(9)
+    if k in (0, 1):
+        x = r.unif(-745.2, 709.78)
+    elif k == 2:
+        x = r.unif(-40.0, 40.0)
+    elif k == 3:
+        x = r.normal(-60, 5)
+    elif k == 4:
+        x = r.sub()
+    elif k == 5:
+        x = r.zero()
+    elif k == 6:
+        x = r.unif(709.0, 709.7827)
+    elif k == 7:
+        x = r.unif(LOG_DBL_MAX, LOG_DBL_MAX + 0.34)
+    else:
+        x = r.unif(-745.2, -700.0)
+    k = r.below(9)
+    if k in (0, 1):
+        y = r.mid()
+    elif k == 2:
+        y = r.wide()
+    elif k == 3:
+        y = r.unif(-7.0, 7.0)
+    elif k in (4, 5):
+        kk = r.rint(-40, 40) if r.below(2) else r.rint(-10 ** 15, 10 ** 15)
+        y = _nudge(kk * (math.pi / 4.0), r.rint(-3, 3))
+    elif k == 6:
+        y = r.sub()
+    elif k == 7:
+        y = r.zero()
+    else:
+        y = r.big()
+    return x, y
+
+
+def _gen_logmag(r):
+    k = r.below(6)
+    return (r.unif(-745.0, 709.7), r.unif(-745.0, 709.7), r.unif(-30.0, 30.0), r.unif(-745.0, -700.0),
+            r.unif(700.0, 709.7), r.unif(-1.0, 1.0))[k]
+
+
+def _gen_angle(r):
+    k = r.below(4)
+    if k in (0, 1):
+        return r.unif(-math.pi, math.pi)
+    if k == 2:
+        return r.pick(['+x', '-x', '+y', '-y', '-x-0', '+x-0'])
+    return r.sign() * 2.0 ** -r.rint(1, 60)
 
 
 def _polar(L, b, ang):
     """a with log|a^b| = L (clamped so that |a| itself stays well inside the double range)."""
-    la = L / b
-    la = max(-700.0, min(700.0, la))
+    la = max(-700.0, min(700.0, L / b))
     m = math.exp(la)
     if isinstance(ang, str):
-        re, im = {'+x': (m, 0.0), '-x': (-m, 0.0), '+y': (0.0, m), '-y': (0.0, -m), '-x-0': (-m, -0.0),
-                  '+x-0': (m, -0.0)}[ang]
+        return {'+x': (m, 0.0), '-x': (-m, 0.0), '+y': (0.0, m), '-y': (0.0, -m), '-x-0': (-m, -0.0),
+                '+x-0': (m, -0.0)}[ang]
+    return m * math.cos(ang), m * math.sin(ang)
+
+
+_B_SPECIAL = [1, -1, 2, -2, 3, -3, 4, -4, 99, -99, 100, -100, 101, -101, 127, 128, -128, 200, -200]
+
+
+def _gen_ipow(r):
+    if r.below(5) == 0:
+        p = (r.mid(), r.mid()) if r.below(2) else (r.any(), r.any())
+        return p[0], p[1], r.pick([0, 1, -1, 2, -2, 3, -3, 4, -5])
+    k = r.below(4)
+    b = r.rint(-200, 200) if k < 2 else (r.rint(-12, 12) if k == 2 else r.pick(_B_SPECIAL))
+    re, im = _polar(_gen_logmag(r), b if b != 0 else 1, _gen_angle(r))
+    return re, im, b
+
+
+def _gen_rpow(r):
+    if r.below(5) == 0:
+        return r.mid(), r.mid(), r.pick([0.5, -0.5, 1.5, 2.5, -1.5, 1.0 / 3.0])
+    k = r.below(4)
+    if k == 0:
+        b = r.unif(-200.0, 200.0)
+    elif k == 1:
+        b = r.rint(-400, 400) / 2.0
+    elif k == 2:
+        b = r.sign() * 10.0 ** r.unif(-6.0, 2.0) * (1.0 + r.mant() / 2.0 ** 52)
     else:
-        re, im = m * math.cos(ang), m * math.sin(ang)
-    return re, im
+        b = r.unif(-3.0, 3.0)
+    if b == 0.0:
+        b = 0.5
+    b = max(-200.0, min(200.0, b))
+    re, im = _polar(_gen_logmag(r), b, _gen_angle(r))
+    return re, im, b
 
 
-def _ipow_strategy():
-    polar = st.builds(lambda L, b, a: (_polar(L, b, a) if b != 0 else _polar(L, 1, a)) + (b,), _LOGMAG, _INT_B, _ANGLE)
-    raw = st.builds(lambda p, b: (p[0], p[1], b), st.one_of(st.tuples(_MID, _MID), st.tuples(_ANY, _ANY)),
-                    st.sampled_from([0, 1, -1, 2, -2, 3, -3, 4, -5]))
-    return st.one_of(polar, polar, polar, polar, raw).map(
-        lambda t: {'fn': 'cipow', 're': H(t[0]), 'im': H(t[1]), 'b': int(t[2])})
+def _gen_sqrt_neg(r):
+    if r.below(3) < 2:
+        return {'fn': 'sqrt_neg', 're': H(r.any()), 'im': None, 'mode': r.pick(['real', 'real', 'general'])}
+    k = r.below(6)
+    if k in (0, 1):
+        p = (r.mid(), r.mid())
+    elif k == 2:
+        p = r.tied(r.mid)
+    elif k == 3:
+        p = (r.any(), r.any())
+    elif k == 4:
+        p = (r.any(zero=False), r.zero())
+    else:
+        p = (r.normal(-500, 500), r.normal(-500, 500))
+    return {'fn': 'sqrt_neg', 're': H(p[0]), 'im': H(p[1]), 'mode': 'general'}
 
 
-def _rpow_strategy():
-    polar = st.builds(lambda L, b, a: _polar(L, b, a) + (b,), _LOGMAG, _REAL_B.filter(lambda b: b != 0.0), _ANGLE)
-    raw = st.builds(lambda p, b: (p[0], p[1], b), st.tuples(_MID, _MID), st.sampled_from([0.5, -0.5, 1.5, 2.5, -1.5, 1.0 / 3.0]))
-    return st.one_of(polar, polar, polar, polar, raw).map(
-        lambda t: {'fn': 'cpow', 're': H(t[0]), 'im': H(t[1]), 'b': H(t[2])})
+_WEIGHTS = ['csqrt'] * 3 + ['clog'] * 3 + ['cexp'] * 3 + ['hypot'] * 2 + ['cipow'] * 3 + ['cpow'] * 2 + ['sqrt_neg']
 
 
-def _sqrtneg_strategy():
-    real = st.builds(lambda x, mode: {'fn': 'sqrt_neg', 're': H(x), 'im': None, 'mode': mode},
-                     _ANY, st.sampled_from(['real', 'real', 'general']))
-    cplx = st.builds(lambda p: {'fn': 'sqrt_neg', 're': H(p[0]), 'im': H(p[1]), 'mode': 'general'},
-                     st.one_of(st.tuples(_MID, _MID), st.tuples(_MID, _MID), _tied(_MID), st.tuples(_ANY, _ANY),
-                               st.tuples(_NONZERO, _ZERO), st.tuples(_normal(-500, 500), _normal(-500, 500))))
-    return st.one_of(real, real, cplx)
+def _decode(words):
+    r = _R(words)
+    fn = r.pick(_WEIGHTS)
+    if fn in ('csqrt', 'clog'):
+        k = r.below(6)
+        if k == 5:
+            p = r.special_pair()
+        elif k == 4 and fn == 'clog':
+            p = r.circle()
+        else:
+            p = r.pair()
+        return {'fn': fn, 're': H(p[0]), 'im': H(p[1])}
+    if fn == 'cexp':
+        x, y = _gen_cexp(r)
+        return {'fn': 'cexp', 're': H(x), 'im': H(y)}
+    if fn == 'hypot':
+        p = (r.any(), r.any()) if r.below(2) else r.pair()
+        return {'fn': 'hypot', 'x': H(p[0]), 'y': H(p[1])}
+    if fn == 'cipow':
+        re, im, b = _gen_ipow(r)
+        return {'fn': 'cipow', 're': H(re), 'im': H(im), 'b': int(b)}
+    if fn == 'cpow':
+        re, im, b = _gen_rpow(r)
+        return {'fn': 'cpow', 're': H(re), 'im': H(im), 'b': H(b)}
+    return _gen_sqrt_neg(r)
 
 
 def strategy(tier):
-    csqrt = st.one_of(_zcase('csqrt', _PAIR), _zcase('csqrt', _PAIR), _zcase('csqrt', _PAIR), _zcase('csqrt', _PAIR),
-                      _zcase('csqrt', _PAIR), _zcase('csqrt', _SPECIAL_PAIR))
-    clog = st.one_of(_zcase('clog', _PAIR), _zcase('clog', _PAIR), _zcase('clog', _PAIR), _zcase('clog', _circle()),
-                     _zcase('clog', _PAIR), _zcase('clog', _SPECIAL_PAIR))
-    hyp = st.tuples(_ANY, _ANY).map(lambda p: {'fn': 'hypot', 'x': H(p[0]), 'y': H(p[1])})
-    hyp2 = _PAIR.map(lambda p: {'fn': 'hypot', 'x': H(p[0]), 'y': H(p[1])})
-    return st.one_of(csqrt, csqrt, csqrt, clog, clog, clog, _cexp_strategy(), _cexp_strategy(), _cexp_strategy(),
-                     hyp, hyp2, _ipow_strategy(), _ipow_strategy(), _ipow_strategy(), _rpow_strategy(), _rpow_strategy(),
-                     _sqrtneg_strategy())
+    w = st.integers(0, _M64)
+    return st.tuples(w, w, w, w).map(_decode)
 
 
 _LATTICE = [0.0, -0.0, 1.5, -1.5, math.inf, -math.inf, math.nan, 5e-324, -5e-324, DBL_MAX, -DBL_MAX]
@@ -425,7 +593,7 @@ def _ulp_clauses(c, fn, region, args_txt, got, exact, tol, comp=True, re_abs_flo
             sym = symptom(got, exact, en)
         if sym is None:
             sym = _generic_symptom(got)
-        sig = {'fn': fn, 'clause': 'ulp', 'region': region, 'symptom': sym}
+        sig = {'fn': fn, 'clause': 'ulp', 'region': region, 'symptom': sym, 'where': '%s -> %s' % (region, sym)}
         if comp_bad and not bad:
             sig['component'] = comp_bad
         c.fail(sig, '%s(%s) = %r; exact %s; error %.3g ulp normwise (re %.3g, im %.3g), tolerance %.3g ulp'
@@ -455,7 +623,7 @@ def _eval_sqrt_log(case):
         else:
             region = 'normal'
         want = O.annexg_clog(re, im)
-    args_txt = '%r%+rj' % (re, im)
+    args_txt = '(%r, %r)' % (re, im)
     if want is not None:
         c.label('annexg:finite_zero_imag' if finite else 'annexg:inf_or_nan', 'class:' + O.classify(re, im))
         sr, si = _comp_symptom(got.real, want[0]), _comp_symptom(got.imag, want[1])
@@ -465,7 +633,8 @@ def _eval_sqrt_log(case):
             where = 'arg=(%s)' % O.classify(re, im)
             if finite and region in ('overflow_rescale', 'tiny', 'huge', 'both_subnormal') and mx > 0:
                 where += '&' + region
-            c.fail({'fn': fn, 'clause': 'annexg', 'region': where, 'symptom': 're:%s,im:%s' % (sr, si)},
+            c.fail({'fn': fn, 'clause': 'annexg', 'region': where, 'symptom': 're:%s,im:%s' % (sr, si),
+                    'where': '%s -> re:%s,im:%s' % (where, sr, si)},
                    '%s(%s) = %r; C99 Annex G requires (%r, %r)' % (fn, args_txt, got, want[0], want[1]))
         return c.result()
     c.label('%s:%s' % (fn, region))
@@ -514,7 +683,7 @@ def _eval_cexp(case):
                 and (g.real > 0) == (ex.real > 0) and (g.imag > 0) == (ex.imag > 0):
             return 'inf_both_right_signs'
         return None
-    _ulp_clauses(c, 'cexp', region, '%r%+rj' % (x, y), got, exact, TOL, symptom=symptom)
+    _ulp_clauses(c, 'cexp', region, '(%r, %r)' % (x, y), got, exact, TOL, symptom=symptom)
     return c.result()
 
 
@@ -579,7 +748,7 @@ def _eval_pow(case):
     for name, call in apis:
         with repo_call(name):
             got = call()
-        _ulp_clauses(c, name, region, '%r%+rj, %r' % (re, im, b), got, exact, tol, comp=False, symptom=symptom)
+        _ulp_clauses(c, name, region, '(%r, %r), %r' % (re, im, b), got, exact, tol, comp=False, symptom=symptom)
     return c.result()
 
 
@@ -598,7 +767,7 @@ def _eval_sqrt_neg(case):
     exact = O.csqrt(re, zi)
     mx = max(abs(re), abs(zi))
     e_twin = max(O.err_ulps(twin, exact)[:1])
-    twin_ok = e_twin <= TOL and (exact.imag != 0 or zi == 0 or True)
+    twin_ok = e_twin <= TOL
     # agreement is judged against the compiled value, in ulp of the exact magnitude
     if math.isfinite(got.real) and math.isfinite(got.imag) and math.isfinite(twin.real) and math.isfinite(twin.imag):
         d = abs(O.mpc(O.M(got.real), O.M(got.imag)) - O.mpc(O.M(twin.real), O.M(twin.imag)))
@@ -606,44 +775,47 @@ def _eval_sqrt_neg(case):
     else:
         agree = 0.0 if (got == twin) else math.inf
     if agree <= TOL_AGREE:
-        # also the sign of a zero imaginary argument must select the same side of the cut
         return c.result()
     e_self = O.err_ulps(got, exact)[0]
-    # name the region / symptom
-    if mode == 'general' and mx >= 2.0 ** 511:
-        region = 'square_overflow'
-    elif mode == 'general' and 0 < mx < 2.0 ** -510:
-        region = 'square_underflow'
-    elif mx >= CSQRT_THRESH:
-        region = 'overflow_rescale'
-    elif 0 < mx < CSQRT_TINY:
-        region = 'tiny'
-    elif mode == 'general' and im is not None and im == 0 and math.copysign(1.0, im) < 0 and re < 0:
-        region = 'negative_real_negzero_imag'
-    elif mode == 'general' and im is not None and im != 0:
-        region = 'complex_offaxis'
-    else:
-        region = 'normal'
+    # name the region / symptom: first the case "sqrt_neg is right, the compiled side is wrong" (csqrt's regions) ...
     if not twin_ok and e_self <= TOL:
-        if region == 'overflow_rescale' and max(O.err_ulps(complex(twin.real, 2.0 * twin.imag), exact)) <= TOL:
-            sym = 'compiled_side_imag_x0.5'
-        elif region == 'tiny':
-            sym = 'compiled_side_lost_bits'
+        if mx >= CSQRT_THRESH:
+            region = 'overflow_rescale'
+            sym = ('compiled_side_imag_x0.5' if max(O.err_ulps(complex(twin.real, 2.0 * twin.imag), exact)) <= TOL
+                   else 'compiled_side_wrong')
+        elif 0 < mx < CSQRT_TINY:
+            region = 'tiny'
+            sym = ('compiled_side_lost_bits' if e_twin <= TOL + 4.0 * 2.0 ** -1022 / mx else
+                   ('compiled_side_inf_at_min_subnormal_imag' if re == 0 and abs(zi) == 5e-324 else 'compiled_side_wrong'))
         else:
+            region = 'normal'
             sym = 'compiled_side_wrong'
-    elif math.isnan(got.real) or math.isnan(got.imag):
-        sym = 'nan'
-    elif region == 'negative_real_negzero_imag' and got == twin.conjugate():
-        sym = 'upper_side_of_cut'
-    elif region == 'complex_offaxis' and e_self <= 8.0 * (1.0 + (abs(re) / abs(zi) if abs(zi) <= abs(re) else abs(zi) / abs(re))) \
-            and min(abs(re), abs(zi)) > 0:
-        sym = 'cancellation_bounded'
-    elif region == 'complex_offaxis' and min(abs(re), abs(zi)) > 0 and \
-            e_self <= 2.0 * float(abs(min(abs(exact.real), abs(exact.imag))) / O.ulp(abs(exact))) + TOL:
-        sym = 'small_component_lost'
     else:
-        sym = _generic_symptom(got)
-    c.fail({'fn': 'sqrt_neg', 'clause': 'agree', 'region': region, 'mode': mode, 'symptom': sym},
+        # ... then the regions of the interpreted formula
+        if mode == 'general' and mx >= 2.0 ** 511:
+            region = 'square_overflow'
+        elif mode == 'general' and 0 < mx < 2.0 ** -510:
+            region = 'square_underflow'
+        elif mode == 'general' and im is not None and im == 0 and math.copysign(1.0, im) < 0 and re < 0:
+            region = 'negative_real_negzero_imag'
+        elif mode == 'general' and im is not None and im != 0:
+            region = 'complex_offaxis'
+        else:
+            region = 'normal'
+        lo, hi = min(abs(re), abs(zi)), max(abs(re), abs(zi))
+        if math.isnan(got.real) or math.isnan(got.imag):
+            sym = 'nan'
+        elif region == 'negative_real_negzero_imag' and got == twin.conjugate():
+            sym = 'upper_side_of_cut'
+        elif region == 'complex_offaxis' and lo > 0 and e_self <= 8.0 * (1.0 + hi / lo):
+            sym = 'cancellation_bounded'
+        elif region == 'complex_offaxis' and lo > 0 and \
+                e_self <= 2.0 * float(min(abs(exact.real), abs(exact.imag)) / O.ulp(abs(exact))) + TOL:
+            sym = 'small_component_lost'
+        else:
+            sym = _generic_symptom(got)
+    c.fail({'fn': 'sqrt_neg', 'clause': 'agree', 'region': region, 'mode': mode, 'symptom': sym,
+            'where': '%s -> %s' % (region, sym)},
            'sqrt_neg(%r, is_real=%r) = %r but csqrt = %r (exact %s): %.3g ulp apart; sqrt_neg is %.3g ulp, csqrt %.3g ulp from exact'
            % (arg, mode == 'real', got, twin, _fmt(exact), agree, e_self, e_twin))
     return c.result()
